@@ -25,7 +25,7 @@ ASSUMPTIONS = [
     "stopping on an event that fails, or that is never triggered, is outside the statement and not driven",
 ]
 OPS = ["ret", ("T", 0), ("T", 1), ("T", 2), ("W", 0, True), ("S", 0), ("J", True), "I", "Sp"]
-NSCEN = 8
+NSCEN = 9
 
 
 def plan(tier, seed):
@@ -224,9 +224,15 @@ def scenario(sc, env):
         port = Port(env, 16, 3, False, "p")
         a.out = Tap("in0", w); b.out = Tap("in1", w); w.out = Tap("mid", port); port.out = Tap("out", sink)
         mon = Monitor(env, w, lambda: 0.7, service_included=True)
+        extra.append(lambda: [("mon", tuple(sorted((k, tuple(v)) for k, v in mon.sizes.items())), mon.action.is_alive)])
+    elif sc == 8:
+        from onl.netdev import PortMonitor
+        a = gen("g0", [1, 0, 2], [2, 1], 0, finish=4)
+        port = Port(env, 8, 3, False, "p")
+        a.out = Tap("in", port); port.out = Tap("out", sink)
         pm = PortMonitor(env, port, lambda: 0.9, pkt_in_service_included=False)
-        env.process(pm.run())
-        extra.append(lambda: [("mon", tuple(sorted((k, tuple(v)) for k, v in mon.sizes.items()))), ("pmon", tuple(pm.sizes), tuple(pm.sizes_byte))])
+        pmp = env.process(pm.run())
+        extra.append(lambda: [("pmon", tuple(pm.sizes), tuple(pm.sizes_byte), pmp.is_alive)])
     elif sc == 7:
         # class ids that are strings: nothing may depend on their hash order
         names = {0: "voice", 1: "video", 2: "bulk"}
@@ -260,7 +266,9 @@ def exec_net(ch, cfg):
     env.run(until=40)
     nbase = len(trace)
     base = list(finish_trace(trace))
-    dues = sorted(set(x[0] for x in base[:nbase]))[:7]
+    alld = sorted(set(x[0] for x in base[:nbase]))
+    # early instants, the last instants of the traffic, and one instant long after the network has gone idle
+    dues = sorted(set(alld[:5] + alld[-2:] + [30]))
     menu = [("step",)] + [("t", t) for t in dues if t > 0] + [("t", t + 0.25) for t in dues] + [("t", 0)]
     stops = []
     for i in range(cfg["S"]):
